@@ -47,5 +47,10 @@ SYMS = [
         subst=[(r"return\s+matrix3x2\s*\(" + SIX + r"\)\s*;", six_to("r", "return;")), (r"\bs\.(\w)\b", r"s\1")], doc="get_scale(point)"),
     Sym(H, r"static matrix3x2 get_scale\(T s\)", "gen_scale_uniform", [("s", "long")], outputs=["r" + c for c in F6],
         subst=[(r"return\s+matrix3x2\s*\(" + SIX + r"\)\s*;", six_to("r", "return;"))], doc="get_scale(s)"),
+    # inverse(m) for T = long (truncating division; exact when the determinant is +-1, see C17_kernel_inverse_unimodular)
+    Sym(H, r"boost::gil::matrix3x2<T> inverse\(boost::gil::matrix3x2<T> m\)", "mat_inverse", P("m"), outputs=["res" + c for c in F6],
+        subst=[(r"boost::gil::matrix3x2<T> res;", "".join("long res%s = %d; " % (c, v) for c, v in zip(F6, (1, 0, 0, 1, 0, 0)))),   # default ctor: identity
+               (r"\bres\.(\w)\b", r"res\1"), (r"\bm\.(\w)\b", r"m\1"), (r"return res;", "return;"), (r"\bT const\b", "long")],
+        doc="inverse(matrix3x2<long>): the six entries"),
 ]
 NAMESPACE = "GilVerif.Gen.C17"
